@@ -35,6 +35,14 @@ class Resolver:
         self.fn = fn
         self.pts = pts or Pts(fn)
         self._memo = {}
+        # locals whose storage is mutably borrowed: their value may change behind the single definition
+        self.mut_borrowed = set()
+        for b in fn.blocks:
+            for s in b["stmts"]:
+                if s["k"] == "assign" and s["rv"]["k"] in ("ref", "rawptr") and s["rv"].get("mut"):
+                    pl = s["rv"]["place"]
+                    if not any(e["k"] == "deref" for e in pl["proj"]):
+                        self.mut_borrowed.add(pl["local"])
 
     def op(self, o, depth=0):
         k = o["k"]
@@ -59,6 +67,8 @@ class Resolver:
         proj = pl["proj"]
         if not proj:
             return self.local(l, depth)
+        if l in self.mut_borrowed and not any(e["k"] == "deref" for e in proj):
+            return ("place", frozenset(self.pts.resolve_place(pl)))
         # (_x.0) of a checked arithmetic pair
         if len(proj) == 1 and proj[0]["k"] == "field":
             sd = self.fn.single_def(l)
@@ -88,7 +98,9 @@ class Resolver:
             return self._memo[l]
         fn = self.fn
         res = None
-        if 1 <= l <= fn.argc:
+        if l in self.mut_borrowed:
+            res = ("arg", l) if 1 <= l <= fn.argc else ("local", l)
+        elif 1 <= l <= fn.argc:
             res = ("arg", l)
         else:
             sd = fn.single_def(l)
@@ -104,6 +116,18 @@ class Resolver:
                     res = ("local", l)
         self._memo[l] = res
         return res
+
+    def init_expr(self, l):
+        """expression of the (single) initialiser of local l, even if l is later mutably borrowed"""
+        sd = self.fn.single_def(l)
+        if sd is None:
+            return ("local", l)
+        bi, si, s = sd
+        if si == "term":
+            return self.call_expr(bi, s, 0)
+        if s.get("k") == "assign":
+            return self.rvalue(s["rv"], 0)
+        return ("local", l)
 
     def call_expr(self, bi, t, depth=0):
         c = t["callee"]
